@@ -117,6 +117,8 @@ class Render:
                 hb = "(+ 1 (raise-continuable 'd%d))" % n
             elif hk == "pref":
                 hb = "(p)"
+            elif hk == "nest":           # an arbitrary sub-script runs inside the handler
+                hb = self.ex(harg)
             else:
                 raise ValueError(hk)
             return ("(with-exception-handler (lambda (e) (log! (list 'h%d (if (symbol? e) e 'err))) %s) (lambda () %s))"
@@ -148,6 +150,8 @@ class Render:
                 cl = "((symbol? e) (log! (list 'g%d e)) %s)" % (n, self.throw(garg[0], garg[1], "%d" % garg[2]))
             elif gk == "pref":
                 cl = "((symbol? e) (log! (list 'g%d e (p))) 3)" % n
+            elif gk == "nest":           # an arbitrary sub-script runs as the clause body (in the guard's extent)
+                cl = "((symbol? e) (log! (list 'g%d e)) %s)" % (n, self.ex(garg))
             else:
                 raise ValueError(gk)
             return "(guard (e %s) %s)" % (cl, body)
@@ -354,8 +358,11 @@ class Gen:
             j = self.pick_slot_for_throw()
             return ("thr", j, self.val(), self.expr(d - 1, hret))
         if op == "weh":
-            hk = r.choices(["ret", "esc", "reraise", "rc", "pref"], [5, 3, 2, 1, 1])[0]
+            hk = r.choices(["ret", "esc", "reraise", "rc", "pref", "nest"], [5, 3, 2, 1, 1, 2])[0]
             harg = self.val() if hk == "ret" else (self.pick_slot_for_throw(), self.val(), self.val()) if hk == "esc" else None
+            if hk == "nest":
+                # the handler body runs with the handler stack of the installation point: same `hret` as here
+                harg = self.expr(min(d - 1, 2), hret)
             return ("weh", hk, harg, self.expr(d - 1, hk in ("ret", "pref")))
         if op == "raise":
             return ("raise",)
@@ -364,9 +371,11 @@ class Gen:
         if op == "err":
             return ("err",)
         if op == "guard":
-            gk = r.choices(["match", "nomatch", "else", "arrow", "test", "reraise", "rc", "throw", "pref"],
-                           [4, 4, 2, 2, 1, 2, 1, 2, 1])[0]
+            gk = r.choices(["match", "nomatch", "else", "arrow", "test", "reraise", "rc", "throw", "pref", "nest"],
+                           [4, 4, 2, 2, 1, 2, 1, 2, 1, 2])[0]
             garg = (self.pick_slot_for_throw(), self.val(), self.val()) if gk == "throw" else self.val()
+            if gk == "nest":
+                garg = self.expr(min(d - 1, 2), hret)
             return ("guard", gk, garg, self.expr(d - 1, False))
         if op == "param":
             if r.random() < 0.2:
@@ -790,11 +799,11 @@ def run_chunk(rep, b, env, cases, tally, procs_acc):
     res, procs = C.run_batches(b, IMPORTS, HEADER, [(c.id, "(%%c6 %s %s)" % (c.id, c.text)) for c in cases],
                                batch=400, env_extra=env, timeout=60, heap="16M/256M")
     # a watchdog on a file of 400 scripts says little about one script: re-run the blamed script alone
-    # (a script takes milliseconds; alone, 20 s of silence is a hang, which the model excludes by construction)
+    # (a script takes milliseconds; alone, 60 s of silence is a hang, which the model excludes by construction)
     slow = [c for c in cases if c.id in res and res[c.id].status == "timeout"]
 
     def rerun(c):
-        r1, p1 = C.run_file(b, IMPORTS, HEADER, [(c.id, "(%%c6 %s %s)" % (c.id, c.text))], env_extra=env, timeout=20,
+        r1, p1 = C.run_file(b, IMPORTS, HEADER, [(c.id, "(%%c6 %s %s)" % (c.id, c.text))], env_extra=env, timeout=60,
                             heap="16M/256M")
         return c, r1, p1
     for c, r1, p1 in R.pmap(rerun, slow[:30]):
